@@ -587,6 +587,9 @@ def correspond(ctx):
         sub = [grp for nm, grp in fgroups if nm == name]
         for i in range(0, len(sub), 60):
             judge_fn(ctx, binary, sub[i:i + 60], name)
+    if not quick:
+        from checks.c02 import isomap_leg
+        isomap_leg(ctx, 300, "c03")
     ctx.cov["rule"] = ("(a) is_connected on uniform-out-degree digraphs (random, one-way chains, stars, two cliques with one-way "
                        "bridges; N 2..24, k 1..4) each with several relabelings, ill-formed lists, and every k-out-regular digraph "
                        "for the (N,k) in exhaustive_regular_digraphs with all relabelings; (b) find_neighbors(.., true) for Brute/"
